@@ -9,6 +9,10 @@ CHECKS = {
    text="TLC explores every interleaving of push / explicit rekey / pull-of-any-chunk (intact, tampered, replayed, foreign, wrong ad) on the symbolic-crypto model within small constants and checks Prefix, OnlyNext, Sync, Resync, FailUnchanged; the model is bound to the code by replaying TLC-generated behaviours and seeded random long histories on the real API (5 backend/build configurations, counters at 2^32-k) and validating every recorded event - return code, message, tag, counter, key change, state-unchanged, output-untouched, byte equality of the two states - with the trace specification; chunk, header and rekey bytes are validated against the documented construction evaluated by TLC.",
    note="Trusted: TLC, the harness's projection (digests identify byte strings), symbolic perfect cryptography in the model; bounds: MaxPush 3 (quick) / 4 (thorough), one explicit rekey per side, one foreign chunk in the exhaustive model; traces are not bounded that way."),
 }
+CHECKS["C15"] = dict(level="model_checking", design="3/C15",
+   technique="TLC exhaustive check of the decoder automaton (CodecMachine.tla) against the declarative RFC 4648 decoder (Codec.tla) + TLC validation of recorded decoder/encoder executions",
+   text="TLC checks, for every text up to length 4 (5 thorough) over a 12-character alphabet holding a representative of every character class, every codec/variant, ignore option, capacity and end-pointer option, that the decoder automaton shaped like the C loops returns exactly what the declarative decoder written from RFC 4648 and the documented contract returns (Agree, WithinCapacity, RoundTrip). The real sodium_hex2bin/sodium_base642bin are then run on every text up to length 3 (4 thorough) over a 13..16-character alphabet, every byte value 0..255 in five contexts, mutated valid encodings and long texts, under all 5 codecs x ignore x end pointer x capacity 0..4 with text and output ending at PROT_NONE pages, encoders and round trips for every length 0..70 (300), and TLC judges every record against Codec.tla.",
+   note="Trusted: TLC, the driver's projection of call results into records. errno classes and the reported length on failure are not compared (the property does not state them). Bounded text length for the exhaustive parts; longer texts only by mutation sampling.")
 NOT_YET = {}
 def main():
     props = [json.loads(l) for l in open(os.path.join(HERE, "properties.jsonl"))]
